@@ -15,8 +15,17 @@ import CookModel.Lemmas.Serde
   trees are rendered to the same text.
 
   Hypotheses on the recipe: every number is finite (the property's premise; `C15_nonfinite_unreadable`
-  shows it is needed) and the modifier bits are the five declared flags (true of every parsed
-  recipe; other bits would be printed in hexadecimal by bitflags, which the model does not cover).
+  shows it is needed), the modifier bits are the five declared flags (true of every parsed
+  recipe; other bits would be printed in hexadecimal by bitflags, which the model does not cover),
+  and — EXPLICIT RESTRICTION with respect to the property text, which says "any parsed recipe" —
+  the metadata mapping is JSON-representable: every key, at any depth, is a string and there is no
+  tagged value.  The restriction is carried by the type (`FullRecipe.metadata : List (Str × Json)`,
+  an opaque JSON object), so it does not appear as a separate hypothesis.  Outside it the property
+  FAILS on the real code (known finding F-C15-1: `---\n1: x\n---` is accepted, its key comes back
+  as the string "1"; `~: x` does not serialize at all; `1:` next to `"1":` does not deserialize).
+  Metadata being opaque, the model cannot state that counterexample; it is exhibited by the oracle
+  on the implementation (signature `c15:metadata-not-json-representable`, corpus/C15.txt) in every run.
+  The theorems below are therefore the full statement for recipes with JSON-representable metadata.
 -/
 namespace Cook
 open Serde
